@@ -4,7 +4,7 @@ import itertools
 
 from sa.astutil import (norm, guards_of, walk_no_nested, always_exits, parent, enclosing, stmt_of,
                         names_in, qualname, subst, Guard)
-from sa.c18_util import BV, SB, SymMem, MemView, int_from_bytes, Interp, Closure, strip_doc, decorators
+from sa.c18_util import BV, SB, SymMem, MemView, int_from_bytes, Interp, Closure, strip_doc, decorators, copy_expr
 from sa.errors import AnalysisError
 from sa.minieval import Raised
 from sa.report import RuleResult
@@ -28,14 +28,18 @@ EXPLANATION = (
     "entry MEANS the operation (every function is evaluated abstractly over all 64 pairs of 3-bit values -- all signed/"
     "unsigned order types -- against a frozen reference table); MagicMemoryFL.amo = read old, write f(old, data) to the "
     "same bytes, return old. "
-    "R-C18-dispatch: in both up_mem blocks every READ/WRITE/AMO_* code is routed (tests evaluated per code) to a branch "
+    "R-C18-dispatch: in both up_mem blocks the dispatch is partially evaluated for EVERY MemMsgType code: every READ/WRITE/"
+    "AMO_* code performs exactly the matching memory call, INV/FLUSH/LR never modify memory; "
+    "every READ/WRITE/AMO_* code is routed (tests evaluated per code) to a branch "
     "performing exactly the matching memory call with (addr, decoded length, data[0:8*len]) and the length decode is "
-    "len or data_nbits/8 when len==0 (evaluated for every len value); conditions guarding the type dispatch (e.g. an address "
+    "len or data_nbits/8 when len==0 (evaluated for every len value at data widths 16..128 incl. 24/40/96, field widths taken "
+    "from MemMsg.py); conditions guarding the type dispatch (e.g. an address "
     "range check) are part of the routing: every in-range access (first bytes, ending one before / exactly at the end of the "
     "memory) is served by its branch in BOTH memories. "
     "R-C18-echo: every response constructor passes the request's type_ and opaque (mapped through the MemRespMsg field "
     "order extracted from MemMsg.py), test=0, len=req.len for reads/AMOs, zero-extended read data / old AMO value. "
-    "R-C18-pairing: one update_once block, one MagicMemoryFL instance, loop visits every port once, per port i the "
+    "R-C18-pairing: one update_once block, one MagicMemoryFL instance, loop visits every port once and serves ports "
+    "independently (no break/return in the port loop, no loop-carried variable), per port i the "
     "request is taken and the memory touched only under a guard implying request-valid AND response-ready of the SAME "
     "index, exactly one response on every path, ports wired index-to-index. "
     "R-C18-endian: read/write byte helpers evaluated over symbolic bytes for 1..8 bytes, for several array sizes len(arr) "
@@ -380,6 +384,7 @@ def _ctx(repo, rel, cls):
     m = repo.mod(rel)
     con = m.get_func(f'{cls}.construct')
     c = Ctx()
+    c.repo = repo
     c.m, c.con, c.cls, c.me = m, con, cls, con.args.args[0].arg
     c.params = [a.arg for a in con.args.args[1:]]
     ctors = [n for n in ast.walk(con) if isinstance(n, ast.Call) and _is_fl_ctor(repo, m, n)]
@@ -521,6 +526,37 @@ def _type_leaf(c, types, tval):
 DEFAULT_SCEN = dict(D=32, lv=0, addr=0)
 
 
+def _trace(c, types, stmts, tval, scen=None, r=None):
+    """The simple statements executed for a request with type code tval (access `scen`), obtained by partially evaluating the
+    if-statements of `stmts` whose tests are about the request (type code, address, length): (trace, rejected)."""
+    sc = scen or DEFAULT_SCEN
+    defs = _up_defs(c)
+    out = []
+
+    def run(body):
+        for st in body:
+            if isinstance(st, ast.If):
+                if r is not None:
+                    r.evaluations += 1
+                v = _len_eval(c, getattr(c, 'pre', []), _expand(st.test, defs), sc['D'], sc['lv'], tval=tval, types=types,
+                              addr=sc['addr'])
+                if isinstance(v, str):
+                    raise AnalysisError(f"{c.q}: dispatch condition does not evaluate ({v}): {norm(st.test)[:80]}")
+                if run(st.body if v else st.orelse):
+                    return True
+            else:
+                out.append(st)
+                if always_exits([st]):
+                    return True
+        return False
+    rejected = run(stmts)
+    return out, rejected
+
+
+def _calls_in(c, trace):
+    return c.memcalls(ast.Module(body=list(trace), type_ignores=[]))
+
+
 def _route(c, types, arms, tval, r=None, scen=None):
     """index of the arm taken for type code tval (and, for arms guarded by address / length conditions, the access described
     by `scen`: data width D, len field lv, address addr), or None for the rejecting else arm"""
@@ -559,10 +595,29 @@ def _param_defaults(c):
     return out
 
 
+DATA_WIDTHS = (16, 24, 32, 40, 64, 96, 128)      # data widths for which the length decoding is evaluated
+
+
+def _len_width(c, D):
+    """width of the request's len field for data width D, from the annotation in mk_mem_req_msg"""
+    cache = c.repo.__dict__.setdefault('_c18_cache', {})
+    if ('lenw', D) not in cache:
+        w = None
+        try:
+            mm, f, cls_, fields, assigns = _msg_fields(c.repo, 'mk_mem_req_msg')
+            la = dict(fields).get('len')
+            if isinstance(la, ast.Call) and norm(la.func) == 'mk_bits' and len(la.args) == 1:
+                w = Interp({f.args.args[-1].arg: D}, funcs={'clog2': lambda n: (int(n) - 1).bit_length()}).ev(la.args[0])
+        except (AnalysisError, Raised):
+            w = None
+        cache[('lenw', D)] = w if isinstance(w, int) and w >= 1 else max(1, ((D >> 3) - 1).bit_length())
+    return cache[('lenw', D)]
+
+
 def _len_eval(c, pre, expr, D, lv, tval=None, types=None, addr=0):
     """value of `expr` after the length-decoding statements `pre`, for req.len == lv and data width D (and, when given,
     req.type_ == tval, req.addr == addr)"""
-    lenw = max(1, ((D >> 3) - 1).bit_length())
+    lenw = _len_width(c, D)
 
     def leaf(e):
         if isinstance(e, ast.Attribute):
@@ -650,13 +705,15 @@ def _expand(e, defs):
     for _ in range(4):
         if not (names_in(e) & set(defs)):
             break
-        e = subst(e, defs)
+        e = copy_expr(e, defs)
     return e
 
 
 def _up_defs(c):
-    rv = c.sinks[0][2].id if len(c.sinks) == 1 and isinstance(c.sinks[0][2], ast.Name) else None
-    return _local_defs(c.loop, {c.req, c.i, rv})
+    if getattr(c, '_defs', None) is None:
+        rv = c.sinks[0][2].id if len(c.sinks) == 1 and isinstance(c.sinks[0][2], ast.Name) else None
+        c._defs = _local_defs(c.loop, {c.req, c.i, rv})
+    return c._defs
 
 
 def rule_dispatch(repo):
@@ -678,42 +735,49 @@ def rule_dispatch(repo):
         if ai > ci:
             raise AnalysisError(f"{c.q}: request acquired after it is decoded")
         pre = blk[ai + 1:ci]
-        # 1. routing
+        # 1. routing: the dispatch is partially evaluated for EVERY message code of MemMsgType
+        N = _mem_size(c)
         for name, code in sorted(types.items(), key=lambda kv: kv[1]):
             want = _expected_kind(name)
+            trace, rejected = _trace(c, types, [chain], code, None, r)
+            calls = _calls_in(c, trace)
+            kinds = sorted({x.func.attr for x in calls})
+            cons = f'{name} -> ' + ('rejected' if rejected else ', '.join(norm(x)[:60] for x in calls) or 'no memory access')
             if want is None:
+                # codes without a memory semantics here: must not modify the memory unless they are a kind of store
+                if not rejected and name not in ('WRITE_INIT', 'SC') and set(kinds) & {'write', 'amo'}:
+                    r.bad(c.m, c.q, cons, f"a {name} request (code {code}) modifies the memory ({', '.join(kinds)}) with its "
+                          f"don't-care address/data fields: only WRITE / WRITE_INIT / AMO requests may change memory contents",
+                          calls[0].lineno)
+                else:
+                    r.ok(c.m, c.q, cons, nontrivial=not rejected)
                 continue
-            k = _route(c, types, arms, code, r)
-            cons = f'{name} -> ' + ('else' if k is None else f'branch {k}: ' + norm(arms[k][0])[:70])
-            if k is None:
+            if rejected:
                 r.bad(c.m, c.q, f'{name} not handled', f"a {name} request (code {code}) falls into the else/assert arm: it is "
                       f"never executed against the memory", chain.lineno)
                 continue
-            calls = c.memcalls(ast.Module(body=arms[k][1], type_ignores=[]))
-            kinds = sorted({x.func.attr for x in calls})
             if kinds != [want]:
-                r.bad(c.m, c.q, cons, f"a {name} request must perform exactly one s.mem.{want}(...); this branch performs "
-                      f"{kinds or 'no memory access'}", arms[k][0].lineno)
+                r.bad(c.m, c.q, cons, f"a {name} request must perform exactly one s.mem.{want}(...); it performs "
+                      f"{kinds or 'no memory access'}", chain.lineno)
                 continue
             if len(calls) != 1:
-                r.bad(c.m, c.q, cons, f"the branch performs {len(calls)} memory accesses for one request", arms[k][0].lineno)
+                r.bad(c.m, c.q, cons, f"{len(calls)} memory accesses are performed for one request", calls[0].lineno)
                 continue
-            # every in-range access is served by that same branch, whatever its address / length (both memories therefore
-            # agree on which accesses they serve): first bytes, and accesses ending one byte before / exactly at the end
-            N = _mem_size(c)
+            # every in-range access is served the same way, whatever its address / length (both memories therefore agree on
+            # which accesses they serve): first bytes, and accesses ending one byte before / exactly at the end
             dropped = None
             if N is not None:
                 for lv, nb in ((0, 4), (1, 1), (3, 3)):
                     for addr in (0, N - nb - 1, N - nb):
-                        k2 = _route(c, types, arms, code, r, dict(D=32, lv=lv, addr=addr))
-                        if k2 != k and dropped is None:
-                            dropped = (addr, nb, k2)
+                        t2, rej2 = _trace(c, types, [chain], code, dict(D=32, lv=lv, addr=addr), r)
+                        if ([id(x) for x in t2], rej2) != ([id(x) for x in trace], rejected) and dropped is None:
+                            dropped = (addr, nb, t2, rej2)
             if dropped:
-                addr, nb, k2 = dropped
-                where = 'the rejecting else arm' if k2 is None else 'the branch `' + norm(arms[k2][0])[:60] + '`'
+                addr, nb, t2, rej2 = dropped
+                where = 'rejected' if rej2 else ('answered by `' + norm(t2[-1])[:70] + '`' if t2 else 'ignored')
                 r.bad(c.m, c.q, cons, f"a {name} request of {nb} byte(s) at address {addr:#x} lies inside the memory of {N:#x} bytes "
-                      f"(last byte {addr + nb - 1:#x}) but is routed to {where} instead of being executed: an in-range access "
-                      f"must always be served (the sibling memory serves it, so the two memories disagree)", arms[k][0].lineno)
+                      f"(last byte {addr + nb - 1:#x}) but is {where} instead of being executed: an in-range access "
+                      f"must always be served (the sibling memory serves it, so the two memories disagree)", chain.lineno)
                 continue
             r.ok(c.m, c.q, cons)
         # 2. arguments of each memory call (once per call site)
@@ -742,7 +806,7 @@ def rule_dispatch(repo):
                     if norm(_strip_int(a)) != f'{c.req}.type_':
                         problems.append(f"operation argument is {norm(a)}, must be {c.req}.type_")
                 elif role == 'n':
-                    for D in (32, 64):
+                    for D in DATA_WIDTHS:
                         for lv in range(D >> 3):
                             r.evaluations += 1
                             got = _len_eval(c, pre, a, D, lv)
@@ -763,7 +827,7 @@ def rule_dispatch(repo):
                             problems.append(f"data argument is {norm(a)}, must be the low bytes of {c.req}.data")
                         else:
                             done = False
-                            for D in (32, 64):
+                            for D in DATA_WIDTHS:
                                 for lv in range(D >> 3):
                                     r.evaluations += 2
                                     lo = 0 if sl.lower is None else _len_eval(c, pre, sl.lower, D, lv)
@@ -916,23 +980,23 @@ def rule_echo(repo):
                   "again) after the dispatch: the response no longer echoes the request", n.lineno)
         if not touched:
             r.ok(c.m, c.q, f'{c.req} / {rv} are never modified in place')
-        routed = {}
+        # which response constructor answers which message code (the dispatch is partially evaluated per code)
+        routed, traces = {}, {}
         for name, code in types.items():
-            k = _route(c, types, arms, code, r)
-            if k is not None:
-                routed.setdefault(k, []).append((name, code))
+            trace, rejected = _trace(c, types, [chain], code, None, r)
+            finals = [x for x in trace if isinstance(x, ast.Assign) and any(isinstance(t, ast.Name) and t.id == rv for t in x.targets)]
+            if not rejected and finals:
+                routed.setdefault(id(finals[-1]), []).append((name, code))
+                traces.setdefault(id(finals[-1]), []).extend(trace)
         for st in ctors:
             call = st.value
             cons = norm(st)
             if not isinstance(call, ast.Call):
                 r.bad(c.m, c.q, cons, "response is not built by a response-class constructor call", st.lineno)
                 continue
-            k = [i for i, (t, body) in enumerate(arms) if any(st is n for b in body for n in ast.walk(b))]
-            if not k:
-                if any(st is n for b in els for n in ast.walk(b)):
-                    continue
+            if not any(st is n for n in ast.walk(chain)):
                 raise AnalysisError(f"{c.q}: response built outside the type dispatch: {cons}")
-            k = k[0]
+            k = id(st)
             fa = _field_args(call, order)
             callee = call.func
             if not (isinstance(callee, ast.Subscript) and _pair_pos(c, callee.value) == 1):
@@ -963,7 +1027,7 @@ def rule_echo(repo):
             if 'test' in fa and not (isinstance(fa['test'], ast.Constant) and fa['test'].value == 0 and not isinstance(fa['test'].value, bool)):
                 problems.append(f"test field is {norm(fa['test'])}, must be 0")
             kinds = {_expected_kind(n) for n, _ in here}
-            calls = c.memcalls(ast.Module(body=arms[k][1], type_ignores=[]))
+            calls = _calls_in(c, traces.get(k, []))
             if kinds & {'read', 'amo'}:
                 if norm(fa['len']) != f'{c.req}.len':
                     problems.append(f"len is {norm(fa['len'])}, a read/AMO response must return {c.req}.len")
@@ -1140,6 +1204,27 @@ def rule_pairing(repo):
                   c.loop.lineno)
         else:
             r.ok(c.m, c.q, cons)
+        # P3b ports are served independently: no way to leave the port loop early, no variable carried from one port to the next
+        early = [n for n in walk_no_nested(c.loop) if isinstance(n, (ast.Break, ast.Return))]
+        inner_loops = [n for n in walk_no_nested(c.loop) if isinstance(n, (ast.For, ast.While)) and n is not c.loop]
+        early = [n for n in early if not any(any(n is x for x in ast.walk(l)) for l in inner_loops) or isinstance(n, ast.Return)]
+        if early:
+            e = early[0]
+            gs = [g for g in guards_of(e, stop=c.loop) if g.kind in ('if', 'exit')]
+            when = ' and '.join(('' if g.polarity else 'not ') + '(' + norm(g.test)[:50] + ')' for g in gs) or 'unconditionally'
+            r.bad(c.m, c.q, f'{norm(e)} inside the port loop', f"the port loop is left ({norm(e)}) when {when}: the state of port "
+                  f"{c.i} decides whether the higher-numbered ports are served this cycle (their requests wait although their own "
+                  f"queues are ready; ports whose sinks depend on each other deadlock). Use `continue`: ports are independent",
+                  e.lineno)
+        else:
+            r.ok(c.m, c.q, 'no break / return inside the port loop')
+        carried = _loop_carried(c)
+        if carried:
+            nm, node = carried[0]
+            r.bad(c.m, c.q, f'loop-carried variable {nm}', f"`{nm}` is read in {norm(stmt_of(node))[:60]} before it is assigned in the "
+                  f"same iteration: what port {c.i} does depends on what an earlier port left behind", node.lineno)
+        else:
+            r.ok(c.m, c.q, 'no variable is carried from one port to the next')
         # P6 index discipline
         nidx = 0
         for n in ast.walk(c.loop):
@@ -1221,6 +1306,41 @@ def rule_pairing(repo):
             _check_wiring(c, conts, edges, r, cq)
     r.require_floor(22)
     return r
+
+
+def _loop_carried(c):
+    """[(name, load node)] of local names that are assigned inside the port loop and read at a point that no assignment of
+    the same iteration dominates"""
+    stored = {n.id for n in ast.walk(c.loop.body[0] if False else c.loop) if isinstance(n, ast.Name) and isinstance(n.ctx, ast.Store)} - {c.i}
+    # augmented assignments read their target first
+    out = []
+    for n in ast.walk(c.loop):
+        if isinstance(n, ast.AugAssign) and isinstance(n.target, ast.Name) and n.target.id in stored:
+            if not _dominated(c, n, n.target.id):
+                out.append((n.target.id, n))
+    for n in ast.walk(c.loop):
+        if isinstance(n, ast.Name) and isinstance(n.ctx, ast.Load) and n.id in stored:
+            if any(n is x for x in ast.walk(c.loop.iter)):
+                continue
+            if not _dominated(c, n, n.id):
+                out.append((n.id, n))
+    return out
+
+
+def _dominated(c, node, name):
+    """some assignment of `name` inside the loop body executes before `node` on every path of the same iteration"""
+    cur = stmt_of(node)
+    while cur is not None and cur is not c.loop:
+        p = parent(cur)
+        for fld in ('body', 'orelse', 'finalbody'):
+            blk = getattr(p, fld, None)
+            if isinstance(blk, list) and any(x is cur for x in blk):
+                before = blk[:[i for i, x in enumerate(blk) if x is cur][0]]
+                if _assigned_all_paths(before, name):
+                    return True
+                break
+        cur = p
+    return False
 
 
 def _assigned_all_paths(stmts, name):
@@ -1557,20 +1677,23 @@ def _bits_ctor(nb, v=0):
 
 # (array size N, address A): the bytes touched must be exactly [A, A+n) for EVERY array size -- sizes that are / are not a power
 # of two, addresses with bits set that N-1 lacks, tiny arrays, aligned and misaligned addresses
-ENDIAN_POINTS = [(1 << 20, 1000), (1 << 20, 1003), (0x18000, 0x8100), (0x18000, 0x8103), (0x10000, 0xff00), (8, 0), (3, 1)]
+# The address is a fixed-width modular value (a Bits of width W, as req.addr is): arithmetic on it before int() wraps at 2^W, so
+# points just below 2^16 with a 16-bit address are included -- the bytes touched must be [A, A+n) in unbounded arithmetic.
+ENDIAN_POINTS = [(1 << 20, 1000, 32), (1 << 20, 1003, 32), (0x18000, 0x8100, 16), (0x18000, 0x8103, 32), (0x10000, 0xff00, 16),
+                 (8, 0, 8), (3, 1, 2), (0x18000, 0xfffc, 16), (0x18000, 0xfffe, 16), (0x18000, 0xfff9, 16)]
 
 
 def _byte_funcs():
     return dict(BASE_FUNCS, Bits=_bits_ctor, memoryview=MemView, len=len, **{'int.from_bytes': int_from_bytes})
 
 
-def _eval_write_helper(wr, funcs, BASE, n, extra, N=1 << 20):
+def _eval_write_helper(wr, funcs, BASE, n, extra, N=1 << 20, W=32):
     """(ok, what was seen, steps) for write_bytearray_bits(arr, BASE, n, data of n+extra symbolic bytes), len(arr) == N"""
     mem = SymMem({}, size=N)
     it = Interp({}, funcs=funcs)
     data = SB([f'D{k}' for k in range(n + extra)])
     try:
-        it.apply(Closure(wr, {}), [mem, BV(16, BASE), n, data])
+        it.apply(Closure(wr, {}), [mem, BV(W, BASE), n, data])
         err = None
     except Raised as ex:
         err = ex.what
@@ -1618,19 +1741,19 @@ def rule_endian(repo):
     funcs = _byte_funcs()
     wide = _write_helper_on_wide_data(repo)
     loose = _unconfined_write_sites(repo)
-    for (N, BASE), n in itertools.product(ENDIAN_POINTS, range(1, 9)):
+    for (N, BASE, W), n in itertools.product(ENDIAN_POINTS, range(1, 9)):
         if BASE + n > N:
             continue
         # read
         mem = SymMem({BASE + k: f'M{k}' for k in range(-2, n + 3) if 0 <= BASE + k < N}, size=N)
         it = Interp({}, funcs=funcs)
         try:
-            got = it.apply(Closure(rd, {}), [mem, BV(16, BASE), n])
+            got = it.apply(Closure(rd, {}), [mem, BV(W, BASE), n])
         except Raised as ex:
             got = f'raises {ex.what}'
         r.evaluations += it.steps
         exp = ('Bits', 8 * n, SB([f'M{k}' for k in range(n)]))
-        cons = f'read_bytearray_bits(arr[{N:#x}], A={BASE:#x}, {n})'
+        cons = f'read_bytearray_bits(arr[{N:#x}], A=Bits{W}({BASE:#x}), {n})'
         if got == exp and not mem.stores:
             r.ok(bm, 'read_bytearray_bits', cons)
         elif mem.stores:
@@ -1641,9 +1764,9 @@ def rule_endian(repo):
         # write: data of exactly n bytes must always work; data wider than n bytes (only the low n bytes may be stored) must
         # work unless EVERY caller confines the data to the low n bytes -- helper and callers are judged together
         for extra in (0, 2):
-            ok, seen, steps = _eval_write_helper(wr, funcs, BASE, n, extra, N)
+            ok, seen, steps = _eval_write_helper(wr, funcs, BASE, n, extra, N, W)
             r.evaluations += steps
-            cons = f'write_bytearray_bits(arr[{N:#x}], A={BASE:#x}, {n}, <{n + extra} bytes>)'
+            cons = f'write_bytearray_bits(arr[{N:#x}], A=Bits{W}({BASE:#x}), {n}, <{n + extra} bytes>)'
             if ok:
                 r.ok(bm, 'write_bytearray_bits', cons)
             elif extra and not loose:
@@ -2318,6 +2441,17 @@ MUTANTS = [
     _m('read-mem-returns-the-array', FL, "    return s.mem[ addr : addr + size ]", "    return s.mem", 'R-C18-endian'),
     _m('cl-range-guard-off-by-one', CL, "          if   req.type_ == MemMsgType.READ:", "          if   int(req.addr) + len_ >= mem_nbytes:\n            resp = resp_classes[i]( req.type_, req.opaque, 0, req.len, 0 )\n          elif req.type_ == MemMsgType.READ:", 'R-C18-dispatch'),
     _m('stream-range-guard-drops-upper-half', STREAM, "          if   req.type_ == MemMsgType.READ:", "          if   int(req.addr) >= mem_nbytes >> 1:\n            resp = resp_classes[i]( req.type_, req.opaque, 0, req.len, 0 )\n          elif req.type_ == MemMsgType.READ:", 'R-C18-dispatch'),
+    _m('write-helper-end-computed-on-bits-address', BYTES, "    addr = int(addr)\n    end  = addr + nbytes\n", "    end  = addr + nbytes\n    addr = int(addr)\n", 'R-C18-endian'),
+    _m('read-helper-last-byte-on-bits-address', BYTES, "    begin = int(addr)\n    addr  = begin + nbytes - 1\n", "    begin = int(addr)\n    addr  = int(addr + (nbytes - 1))\n", 'R-C18-endian'),
+    _m('stream-len0-decoded-from-field-width', STREAM, "          len_ = int(req.len)\n          if len_ == 0: len_ = req_classes[i].data_nbits >> 3\n", "          len_ = int(req.len) or (1 << req.len.nbits)\n", 'R-C18-dispatch'),
+    dict(name='cl-inv-writes-memory', file=CL, rule='R-C18-dispatch', edits=[
+        dict(file=CL, old="          elif  req.type_ == MemMsgType.WRITE:\n            s.mem.write( req.addr, len_, req.data[0:len_<<3] )\n",
+             new="          elif  req.type_ == MemMsgType.WRITE or \\\n                req.type_ == MemMsgType.INV   or \\\n                req.type_ == MemMsgType.FLUSH:\n            if req.type_ < MemMsgType.FLUSH:\n              s.mem.write( req.addr, len_, req.data[0:len_<<3] )\n"),
+        dict(file=CL, old="          # INV\n          elif  req.type_ == MemMsgType.INV:\n            resp = resp_classes[i]( req.type_, req.opaque, 0, 0, 0 )\n\n          # FLUSH\n          elif  req.type_ == MemMsgType.FLUSH:\n            resp = resp_classes[i]( req.type_, req.opaque, 0, 0, 0 )\n\n", new="")]),
+    dict(name='cl-backpressured-port-breaks-loop', file=CL, rule='R-C18-pairing', edits=[
+        dict(file=CL, old="        if s.req_qs[i].deq.rdy() and s.resp_qs[i].enq.rdy():\n", new="        if not s.req_qs[i].deq.rdy():\n          continue\n\n        if s.resp_qs[i].enq.rdy():\n"),
+        dict(file=CL, old="          s.resp_qs[i].enq( resp )\n", new="          s.resp_qs[i].enq( resp )\n\n        else:\n          break\n")]),
+    _m('stream-response-carried-to-next-port', STREAM, "          else:\n            assert False\n", "          else:\n            pass\n", 'R-C18-pairing'),
     # --- purity / FIFO shape
     _m('deq-pipe-no-copy', DELAY, "    s.pipeline[0] = clone_deepcopy(msg)\n\n  @non_blocking( lambda s: s.pipeline[-1] is not None )", "    s.pipeline[0] = msg\n\n  @non_blocking( lambda s: s.pipeline[-1] is not None )", 'R-C18-purity'),
     _m('deq-pipe-rotates-when-slot0-empty', DELAY, "        if s.pipeline[-1] is None:\n          s.pipeline.rotate()", "        if s.pipeline[0] is None:\n          s.pipeline.rotate()", 'R-C18-purity'),
@@ -2398,6 +2532,15 @@ EQUIV = [
     _m('cl-range-guard-correct-bound', CL, "          if   req.type_ == MemMsgType.READ:", "          if   int(req.addr) + len_ > mem_nbytes:\n            resp = resp_classes[i]( req.type_, req.opaque, 0, req.len, 0 )\n          elif req.type_ == MemMsgType.READ:"),
     _m('read-mem-copy-of-view', FL, "    return s.mem[ addr : addr + size ]", "    return bytearray( memoryview( s.mem )[ addr : addr + size ] )"),
     _m('helper-address-mask-identity', BYTES, "    begin = int(addr)\n", "    begin = int(addr) & ((1 << 64) - 1)\n"),
+    dict(name='cl-guard-split-with-continue', file=CL, edits=[
+        dict(file=CL, old="        if s.req_qs[i].deq.rdy() and s.resp_qs[i].enq.rdy():\n", new="        if not s.req_qs[i].deq.rdy():\n          continue\n\n        if s.resp_qs[i].enq.rdy():\n"),
+        dict(file=CL, old="          s.resp_qs[i].enq( resp )\n", new="          s.resp_qs[i].enq( resp )\n\n        else:\n          continue\n")]),
+    dict(name='cl-inv-flush-merged-without-write', file=CL, edits=[
+        dict(file=CL, old="          elif  req.type_ == MemMsgType.WRITE:\n            s.mem.write( req.addr, len_, req.data[0:len_<<3] )\n",
+             new="          elif  req.type_ == MemMsgType.WRITE or \\\n                req.type_ == MemMsgType.INV   or \\\n                req.type_ == MemMsgType.FLUSH:\n            if req.type_ < MemMsgType.INV:\n              s.mem.write( req.addr, len_, req.data[0:len_<<3] )\n"),
+        dict(file=CL, old="          # INV\n          elif  req.type_ == MemMsgType.INV:\n            resp = resp_classes[i]( req.type_, req.opaque, 0, 0, 0 )\n\n          # FLUSH\n          elif  req.type_ == MemMsgType.FLUSH:\n            resp = resp_classes[i]( req.type_, req.opaque, 0, 0, 0 )\n\n", new="")]),
+    _m('stream-len0-decoded-with-or', STREAM, "          len_ = int(req.len)\n          if len_ == 0: len_ = req_classes[i].data_nbits >> 3\n", "          len_ = int(req.len) or req_classes[i].data_nbits // 8\n"),
+    _m('write-helper-int-of-sum', BYTES, "    addr = int(addr)\n    end  = addr + nbytes\n", "    end  = int(addr) + nbytes\n    addr = int(addr)\n"),
     _m('stall-rdy-conjuncts-swapped', STALL, "lambda s: s.stall_rgen.random() > s.stall_prob and s.send.rdy()", "lambda s: s.send.rdy() and s.stall_rgen.random() > s.stall_prob"),
 ]
 
